@@ -5,6 +5,7 @@ import (
 	"encoding/xml"
 	"errors"
 	"fmt"
+	"strconv"
 	"time"
 
 	"go.lstv.dev/util/date"
@@ -216,8 +217,15 @@ func init() {
 	}
 }
 
+// containsBytes is the observation behind "the message reproduces the input": the message
+// contains the input verbatim or in its %q-escaped form. Inputs shorter than 8 bytes are not
+// judged, because a few bytes can occur in any message by coincidence (" 1" in "2 > 1").
 func containsBytes(s string, sub []byte) bool {
-	return len(sub) > 0 && stringsContains(s, string(sub))
+	if len(sub) < 8 {
+		return false
+	}
+	q := strconv.Quote(string(sub))
+	return stringsContains(s, string(sub)) || stringsContains(s, q[1:len(q)-1])
 }
 
 // C15 state: the caller's own bound variables (the filter is given pointers to them) and the
